@@ -3,6 +3,7 @@
 -/
 import Tsg.Syntax.Ast
 import Tsg.Syntax.Parser
+import Tsg.Syntax.Checker
 import Tsg.Driver.AstIO
 
 namespace Driver
@@ -90,6 +91,8 @@ structure POracleTable where
   qs : List (String × QueryAns) := []
   rs : List (String × Bool) := []
   cs : List (Char × Bool × Bool × Bool) := []
+  /-- `(n "pattern" bool)`: does the regex match the empty string -/
+  ns : List (String × Bool) := []
 
 def POracleTable.toOracle (t : POracleTable) : POracle where
   query := fun s => t.qs.lookup s
@@ -108,6 +111,7 @@ def poracleOfSexp : Sexp → Option POracleTable
       | .list [.atom "q", .str text, .list [.atom "invalid", r, c, o]] => do
         pure { t with qs := (text, .invalid (← r.nat?) (← c.nat?) (← o.nat?)) :: t.qs }
       | .list [.atom "r", .str p, b] => do pure { t with rs := (p, ← b.bool?) :: t.rs }
+      | .list [.atom "n", .str p, b] => do pure { t with ns := (p, ← b.bool?) :: t.ns }
       | .list [.atom "c", .str ch, a, b, c] => do
         match ch.toList with
         | [x] => pure { t with cs := (x, ← a.bool?, ← b.bool?, ← c.bool?) :: t.cs }
@@ -128,6 +132,45 @@ def handleParse : List Sexp → Sexp
       | .error (.need (.regex p)) => .list [.atom "need", .atom "r", .str p]
       | .error .outOfFuel => .list [.atom "out-of-fuel"]
       | .error (.panic s) => .list [.atom "panic", .str s]
+  | _ => .list [.atom "bad-request"]
+
+def varErrName : VarErrK → String
+  | .cannotAssignImmutable => "CannotAssignImmutableVariable"
+  | .alreadyDefined => "VariableAlreadyDefined"
+  | .undefined => "UndefinedVariable"
+
+def cerrSexp : CheckErrK → Sexp
+  | .cannotHideGlobalVariable n l => .list [.atom "CannotHideGlobalVariable", .str n, locSexp l]
+  | .cannotSetGlobalVariable n l => .list [.atom "CannotSetGlobalVariable", .str n, locSexp l]
+  | .duplicateGlobalVariable n l => .list [.atom "DuplicateGlobalVariable", .str n, locSexp l]
+  | .expectedListValue l => .list [.atom "ExpectedListValue", locSexp l]
+  | .expectedLocalValue l => .list [.atom "ExpectedLocalValue", locSexp l]
+  | .expectedOptionalValue l => .list [.atom "ExpectedOptionalValue", locSexp l]
+  | .nullableRegex re l => .list [.atom "NullableRegex", .str re, locSexp l]
+  | .undefinedSyntaxCapture n l => .list [.atom "UndefinedSyntaxCapture", .str n, locSexp l]
+  | .undefinedVariable n l => .list [.atom "UndefinedVariable", .str n, locSexp l]
+  | .unusedCaptures ns l => .list [.atom "UnusedCaptures", .str ns, locSexp l]
+  | .variable e n l => .list [.atom "Variable", .atom (varErrName e), .str n, locSexp l]
+
+/-- `(load "text" (poracle ...))` = `File::from_str`: parse, then check.
+    → `(loaded <file>)` | `(parse-error <err>)` | `(check-error <err>)` | `(need ...)` -/
+def handleLoad : List Sexp → Sexp
+  | [.str text, orc] =>
+    match poracleOfSexp orc with
+    | none => .list [.atom "bad-request"]
+    | some t =>
+      match Parser.parse t.toOracle text with
+      | .error (.err e) => .list [.atom "parse-error", perrSexpP e]
+      | .error (.need (.query q)) => .list [.atom "need", .atom "q", .str q]
+      | .error (.need (.regex p)) => .list [.atom "need", .atom "r", .str p]
+      | .error .outOfFuel => .list [.atom "out-of-fuel"]
+      | .error (.panic s) => .list [.atom "panic", .str s]
+      | .ok f =>
+        match Checker.check (fun p => t.ns.lookup p) f with
+        | .ok f' => .list [.atom "loaded", fileSexp f']
+        | .error (.err e) => .list [.atom "check-error", cerrSexp e]
+        | .error (.needNullable p) => .list [.atom "need", .atom "n", .str p]
+        | .error (.panic s) => .list [.atom "panic", .str s]
   | _ => .list [.atom "bad-request"]
 
 end Driver
